@@ -64,15 +64,11 @@ func (s *store) Sort(ctx context.Context, sids []common.SeriesID, fieldKey index
 		query = obq
 	}
 
-	fk := fieldKey.Marshal()
-	sortedKey := fk
-	if order == modelv1.Sort_SORT_DESC {
-		sortedKey = "-" + sortedKey
-	}
 	result := &sortIterator{
 		query:       &queryNode{query: query},
 		reader:      reader,
-		sortedKey:   sortedKey,
+		sortedKey:   fieldKey.Marshal(),
+		desc:        order == modelv1.Sort_SORT_DESC,
 		size:        preLoadSize,
 		ctx:         ctx,
 		newIterator: newBlugeMatchIterator,
@@ -98,6 +94,7 @@ type sortIterator struct {
 	fields      []string
 	size        int
 	skipped     int
+	desc        bool
 }
 
 func (si *sortIterator) Next() bool {
@@ -121,7 +118,13 @@ func (si *sortIterator) loadCurrent() bool {
 		// overflow
 		size = math.MaxInt
 	}
-	topNSearch := bluge.NewTopNSearch(size, si.query.(*queryNode).query).SortBy([]string{si.sortedKey})
+	// The field name is the raw marshaled field key (e.g. the 4 bytes of an index rule ID): it must not go through
+	// bluge's sort-string syntax, which reads a leading '-' or '+' of the name as the sort direction.
+	sortBy := search.SortBy(search.Field(si.sortedKey))
+	if si.desc {
+		sortBy.Desc()
+	}
+	topNSearch := bluge.NewTopNSearch(size, si.query.(*queryNode).query).SortByCustom(search.SortOrder{sortBy})
 	if si.skipped > 0 {
 		topNSearch = topNSearch.SetFrom(si.skipped)
 	}
